@@ -99,7 +99,18 @@ func maskScript(mask, k, n int) []int {
 func buildSession(rng *Rng, nReq int) (stream []byte, wellFormed bool) {
 	stream = append(stream, handshakeBytes...)
 	id := uint32(1)
-	stream = append(stream, refEncode(107, id, RField{105, nil}, RField{106, nil}, RField{102, []byte("seg")}, RField{104, []byte{0, 7}})...)
+	// half of the sessions log in as the guest (empty login), half to the named account "segacct" / "pw"
+	// (login and password travel with every byte complemented; the server compares the password as sent)
+	var login, pass []byte
+	if rng.Intn(2) == 0 {
+		for _, c := range []byte("segacct") {
+			login = append(login, 255-c)
+		}
+		for _, c := range []byte("pw") {
+			pass = append(pass, 255-c)
+		}
+	}
+	stream = append(stream, refEncode(107, id, RField{105, login}, RField{106, pass}, RField{102, []byte("seg")}, RField{104, []byte{0, 7}})...)
 	for i := 0; i < nReq; i++ {
 		id++
 		switch rng.Intn(4) {
@@ -148,7 +159,8 @@ func runControl(env *Env, stream []byte, script []int, addr string) [][]byte {
 
 func genC02(cs *CaseSet, rng *Rng, tier string, dir string) {
 	cs.Rule = "control sessions: >= 2 transactions and a segmentation with >= 2 segments one of which splits the 12-byte handshake or a 20-byte transaction header; uploads: a segmentation with >= 2 segments splitting the preamble or a fork header; scanner cases: >= 2 chunks; distinct by (stream, script)"
-	env := NewEnv(dir, EnvOpts{})
+	env := NewEnv(dir, EnvOpts{Accounts: []hotline.Account{
+		{Login: "segacct", Name: "Seg", Password: hotline.HashAndSalt([]byte{255 - 'p', 255 - 'w'}), Access: hotline.AccessBitmap{}}}})
 	var mu sync.Mutex
 	serial := 0
 	nextAddr := func() string {
